@@ -102,6 +102,7 @@ func TestVerifC04(t *testing.T) {
 	vC04SlowPeer("reply")
 	vC04SlowPeer("call")
 	vC04DuplicateResponses(4)
+	vC04Relay()
 	if vThorough() {
 		for k := 0; k < 10; k++ {
 			vC04SlowPeer([]string{"reply", "call"}[k%2])
@@ -305,6 +306,52 @@ func vC04SlowPeer(variant string) {
 // to back (the reply is slow to decode, so the copies arrive while the caller is still busy with the
 // first). Whatever that does to A's own call, calls to B and administrative calls must proceed and
 // no responder may stay parked.
+// A call made from inside a handler: the handler's context carries the key of the peer whose request it serves (J); a server
+// call made with peer.NewCallContext(handlerCtx, K) is addressed to K and must reach K's session, not J's.
+func vC04Relay() {
+	s, keyA, keyB, trA, trB, stop := vC04Server()
+	defer stop()
+	info := map[string]interface{}{"outcome": "ok"}
+	c := vCase{Class: "isolation/relay-from-a-handler-context", Sig: "relay", Info: info}
+	handlerCtx := peer.NewContext(context.Background(), &peer.Peer{PublicKey: keyA})
+	callCtx := peer.NewCallContext(handlerCtx, keyB)
+	if p, ok := peer.FromContext(callCtx); !ok || p.PublicKey != keyB {
+		c.Fail = "call-context-does-not-carry-the-requested-key"
+		info["outcome"] = "FromContext(NewCallContext(ctx with A, B)) is not B"
+	}
+	var mu sync.Mutex
+	got := map[string]int{}
+	answer := func(name string, tr *vParkTr) func([]byte) {
+		return func(b []byte) {
+			m := &message.Message{}
+			if proto.Unmarshal(b, m) != nil || m.GetRequest() == nil {
+				return
+			}
+			mu.Lock()
+			got[name]++
+			mu.Unlock()
+			app, _ := proto.Marshal(vAppMsg("from-"+name, nil, ""))
+			f := vFrame(&message.Message{Exchange: &message.Message_Response{Response: &message.Response{CallId: m.GetRequest().GetCallId(), Payload: app}}})
+			go tr.feed(f)
+		}
+	}
+	trA.onWrite = answer("A", trA)
+	trB.onWrite = answer("B", trB)
+	ctx, cancel := context.WithTimeout(callCtx, 2*time.Second)
+	out := &message.Response{}
+	err := s.Invoke(ctx, "Echo", vAppMsg("for-B-only", nil, ""), out)
+	cancel()
+	mu.Lock()
+	a, b := got["A"], got["B"]
+	mu.Unlock()
+	info["delivered_to_A"], info["delivered_to_B"], info["reply"] = a, b, out.CallId
+	if c.Fail == "" && (err != nil || a != 0 || b != 1 || out.CallId != "from-B") {
+		c.Fail = "call-addressed-to-one-peer-delivered-to-another"
+		info["outcome"] = fmt.Sprintf("err=%v delivered to A=%d B=%d reply=%q", err, a, b, out.CallId)
+	}
+	vEmit(c)
+}
+
 func vC04DuplicateResponses(n int) {
 	s, keyA, keyB, trA, _, stop := vC04Server()
 	defer stop()
